@@ -1,6 +1,6 @@
 (* Extraction of the UML class generator model (build/kmodel). *)
 From Coq Require Import Extraction ExtrOcamlBasic ExtrOcamlNativeString.
-From KV Require Import Lib.Str Lib.ODict Model.Vpp Model.Uml Model.UmlCs Spec.UmlSpec.
+From KV Require Import Lib.Str Lib.ODict Model.Vpp Model.Uml Model.UmlCs Model.UmlIncl Spec.UmlSpec.
 
 Extraction Blacklist String List Bool.
 
@@ -10,4 +10,5 @@ Separate Extraction
   Uml.acyclic Uml.closed UmlSpec.files_hyp UmlSpec.distinct_paths UmlSpec.path_ok UmlSpec.expected_files
   UmlSrc.template_files UmlSrc.template_files_cs
   Uml.once_hyp Uml.visited UmlCs.ops_of_cs UmlCs.members_cs UmlCs.all_cs UmlCs.cs_line UmlCs.cs_has_body UmlCs.files_all UmlCs.cs_view UmlCs.cs_cls
-  UmlSpec.files_hyp_cs UmlSpec.expected_files_cs.
+  UmlSpec.files_hyp_cs UmlSpec.expected_files_cs
+  UmlIncl.nfd UmlIncl.fd UmlIncl.header_includes UmlIncl.source_includes UmlIncl.forward_decls UmlIncl.namespace_deps UmlIncl.requires_vector UmlIncl.adaptor_incl UmlIncl.incl_names_ok.
